@@ -79,12 +79,9 @@ func execMultiplicativeExprMod(context *exprContext, expr *grammar.Grammar) erro
 		return err
 	}
 
-	if right == 0 {
-		context.result = Number(math.NaN())
-		return nil
-	}
-
-	context.result = Number(int(left) % int(right))
+	// The remainder of a truncating division on the real operands, with the
+	// sign of the dividend (5.5 mod 2 = 1.5, 1 mod 0.5 = 0, x mod 0 = NaN).
+	context.result = Number(math.Mod(left, right))
 	return nil
 }
 
